@@ -38,6 +38,9 @@ func c05SockConn(srv *svc.Server, cid int, seed uint64, ntransfers int) (viol []
 	var log []string
 	for tr := 0; tr < ntransfers; tr++ {
 		N := 2 + r.Intn(5)
+		if r.Chance(1, 6) {
+			N = 1 // a "transfer" of one package: flagged as sub-packaged, total 1 — complete with its only packet
+		}
 		id := core.Pick(r, []uint16{0x0801, 0x0801, 0x0704, 0x0200})
 		bodies := c05Bodies(r, N, r.Intn(8))
 		if id == 0x0801 {
